@@ -366,3 +366,79 @@ def run(sink, prop, rng, n, impl, codecs, Gen, Opts, module_text):
                         sink.violation('%s: a value of an explicitly tagged type does not round-trip' % codec,
                                        {'codec': codec, 'module': text, 'value': repr(v), 'encoded': r[1].hex() if codec not in ('jer', 'xer', 'gser') else repr(r[1])[:300],
                                         'decoded': repr(d[1:])[:400]})
+
+
+# ---------------------------------------------------------------------------------------------------------------------
+# SET: the textual order of the components is not part of the type.  DER, PER, UPER and OER all encode a SET as the SEQUENCE of
+# its components in canonical tag order (X.690 10.3, X.691 21.1, X.696 17): writing the same components in another textual order
+# (tags spelled out, so that nothing else changes) must give identical octets, whatever is OPTIONAL / DEFAULT / present.
+
+def set_order_case(rng, Gen, Opts):
+    g = Gen(rng, Opts(max_depth=1, allow_exotic=0.0, allow_ext=False, kinds=['bool', 'int', 'enum', 'octs', 'null', 'str', 'bits']))
+    n = rng.randint(2, 7)
+    used = set()
+    members = []
+    for i in range(n):
+        t = g.type(depth=3)
+        tg = None
+        while tg is None or tg[:2] in used:
+            tg = (rng.choice(['', '', 'APPLICATION', 'PRIVATE']), rng.choice([0, 1, 2, 3, 4, 5, 6, 7, 8, 9, 30, 31, 127, 128]), rng.choice(['', 'IMPLICIT', 'EXPLICIT']))
+        used.add(tg[:2])
+        m = {'name': 'c%d' % i, 't': t, 'opt': False, 'default': None, 'tag': tg}
+        x = rng.random()
+        if x < 0.45:
+            m['opt'] = True
+        elif x < 0.65 and t['k'] in ('bool', 'int', 'enum', 'octs'):
+            m['default'] = g.value(t, for_default=True)
+        members.append(m)
+    return g, members
+
+
+def run_set_order(sink, prop, rng, n, impl, codecs, Gen, Opts, module_text):
+    for case in range(n):
+        g, members = set_order_case(rng, Gen, Opts)
+        orders = [list(members)]
+        for _ in range(2):
+            o = list(members)
+            rng.shuffle(o)
+            orders.append(o)
+        order_rank = {'': 2, 'APPLICATION': 1, 'PRIVATE': 3}
+        orders.append(sorted(members, key=lambda m: (order_rank[m['tag'][0]], m['tag'][1])))
+        mode = rng.choice(['', 'EXPLICIT TAGS', 'IMPLICIT TAGS'])
+        wrap = rng.random() < 0.4          # the SET nested in a SEQUENCE / as a list element
+        texts = []
+        for o in orders:
+            t = {'k': 'set', 'root': o, 'ext': None}
+            if wrap:
+                t = {'k': 'seq', 'root': [{'name': 'pre', 't': {'k': 'bool'}, 'opt': False, 'default': None, 'tag': ('', 0, '')},
+                                          {'name': 's', 't': t, 'opt': False, 'default': None, 'tag': ('', 1, '')}], 'ext': None}
+            texts.append(module_text([('A', t)], tags=mode))
+        t0 = {'k': 'set', 'root': members, 'ext': None}
+        vals = []
+        for _ in range(5):
+            v = g.value(t0)
+            for m in members:                     # mixed presence
+                if (m['opt'] or m['default'] is not None) and rng.random() < 0.5:
+                    v.pop(m['name'], None)
+            vals.append({'pre': True, 's': v} if wrap else v)
+        for codec in codecs:
+            specs = []
+            for tx in texts:
+                st, sp = impl.compile_text(tx, codec)
+                specs.append(sp if st == 'ok' else None)
+            if None in specs:
+                sink.count('setorder.compile-failed.%s' % codec)
+                continue
+            for v in vals:
+                outs = [impl.encode(sp, 'A', v) for sp in specs]
+                sink.case((texts[0], repr(v), codec))
+                sink.count('setorder.%s.%s' % (codec, outs[0][0] if outs[0][0] == 'ok' else outs[0][1].split(':')[0]))
+                if len({o[:2] for o in outs}) > 1:
+                    sink.violation('%s: the octets of a SET value depend on the textual order of its components (must be the canonical tag order)' % codec,
+                                   {'codec': codec, 'value': repr(v), 'modules': texts, 'encodings': [o[1].hex() if o[0] == 'ok' else o[1] for o in outs]})
+                    continue
+                if outs[0][0] == 'ok':
+                    ds = [impl.decode(sp, 'A', outs[0][1]) for sp in specs]
+                    if len({repr(d[:2]) for d in ds}) > 1:
+                        sink.violation('%s: decoding of a SET value depends on the textual order of its components' % codec,
+                                       {'codec': codec, 'value': repr(v), 'modules': texts, 'decoded': [repr(d[:2])[:200] for d in ds]})
